@@ -85,6 +85,7 @@ def gen_world(rng, profile, tier, no_twins=False):
         "ref_chain": rng.random() < 0.15,
         "name_twins": rng.random() < 0.15,
         "short_names": rng.random() < 0.15,
+        "hostile_fields": rng.random() < 0.12,
         "zero_static": rng.random() < 0.25,
         "np_dims": rng.random() < 0.15,
         "kill": rng.random() < 0.5,
